@@ -465,6 +465,9 @@ func init() {
 		"internal/bytealg.Count": func(in *Interp, fr *frame, fn *ssa.Function, a []Value) Value {
 			return in.countByte(in.byteTerms(a[0]), term(a[1]))
 		},
+		"(*os.File).Name": func(in *Interp, fr *frame, fn *ssa.Function, a []Value) Value {
+			return in.strConst("<file>") // only used in error messages
+		},
 		"context.Background": func(in *Interp, fr *frame, fn *ssa.Function, a []Value) Value {
 			return IfaceV{t: opaqueType, v: OpaqueV{"context"}}
 		},
